@@ -16,12 +16,12 @@ WORKLOADS = {
     'C13': dict(quick=[('paging', 3, 1, 4000)], thorough=[('paging', 24, 1, 4000)]),
     'C19': dict(quick=[('limits', 1, 1, 30000), ('limits', 1, 1, 70000)], thorough=[('limits', 3, 1, 30000), ('limits', 2, 1, 70000), ('limits', 1, 1, 140000)]),
     'C08': dict(quick=[('stale', 16, 70, 4000)], thorough=[('stale', 300, 300, 4000), ('names', 100, 300, 4000)]),
-    'C09': dict(quick=[('fail', 8, 60, 1600), ('fail', 6, 60, 1570), ('fail', 4, 50, 2100)],
-                thorough=[('fail', 150, 200, 1600), ('fail', 100, 200, 1570), ('fail', 100, 200, 2100), ('fail', 60, 200, 1545)]),
-    'C10': dict(quick=[('twin', 10, 60, 4000), ('manyobj', 3, 220, 6000), ('fail', 8, 70, 1600)], thorough=[('twin', 200, 200, 4000), ('manyobj', 30, 400, 6000), ('fail', 60, 120, 1600)]),
+    'C09': dict(quick=[('fail', 8, 60, 1600), ('fail', 6, 60, 1570), ('fail', 4, 50, 2100), ('toobig', 4, 40, 6000)],
+                thorough=[('fail', 150, 200, 1600), ('fail', 100, 200, 1570), ('fail', 100, 200, 2100), ('fail', 60, 200, 1545), ('toobig', 60, 100, 6000)]),
+    'C10': dict(quick=[('twin', 10, 60, 4000), ('manyobj', 3, 220, 6000), ('fail', 8, 70, 1600), ('longnames', 4, 130, 4000)], thorough=[('twin', 200, 200, 4000), ('manyobj', 30, 400, 6000), ('fail', 60, 120, 1600), ('longnames', 60, 200, 4000)]),
     'C11': dict(quick=[('hostile', 16, 150, 4000), ('hostile', 6, 150, 1600)], thorough=[('hostile', 400, 500, 4000), ('hostile', 100, 500, 1600), ('hostile', 50, 300, 40000)]),
-    'C12': dict(quick=[('recycle', 16, 60, 4000), ('recycle', 6, 60, 1700)],
-                thorough=[('recycle', 300, 250, 4000), ('recycle', 150, 250, 1700), ('bigfile', 80, 150, 12000)]),
+    'C12': dict(quick=[('recycle', 16, 60, 4000), ('recycle', 6, 60, 1700), ('fail', 8, 70, 1600)],
+                thorough=[('recycle', 300, 250, 4000), ('recycle', 150, 250, 1700), ('bigfile', 80, 150, 12000), ('fail', 150, 200, 1600)]),
 }
 
 
@@ -33,10 +33,13 @@ def run(ctx, prop, ps, gen_bad):
     for name, hdr, ops in seqengine.load_corpus(prop):
         steps, done, _ = vlib.judge_ops(hdr, ops, 'corpus')
         tot['steps'] += len(steps)
-        i = vlib.first_failure(steps)
-        if i is not None:
-            kind, proc, detail = seqengine.signature(steps[i])
-            fails.append(Failure(prop, kind, proc, detail, replay=dict(header=hdr, ops=ops, corpus=name)))
+        # the first step that breaks a relation this property owns (or that panics)
+        for st_ in steps:
+            own = [(k_, d_) for k_, d_ in vlib.classify_all(st_) if k_ in seqengine.KINDS[prop] or k_ == 'panic'] \
+                if (st_['panic'] or not st_['reply'] or st_['nabs'] or st_['nwf'] or not st_['alloc'] or not st_.get('trace', 1)) else []
+            if own:
+                fails.append(Failure(prop, own[0][0], st_['proc'], own[0][1], replay=dict(header=hdr, ops=ops, corpus=name)))
+                break
     for k, (profile, nseq, nops, size) in enumerate(WORKLOADS[prop]['quick' if ctx.quick else 'thorough']):
         fs, st = seqengine.run_profile(ctx, prop, profile, nseq, nops, size, seed_off=k * 7919, survive_only=(prop == 'C11'))
         tot['sequences'] += st['sequences']
